@@ -69,6 +69,14 @@ const std::string &trace_text();
 Rng &fault_rng();
 int self_id();
 
+// guided schedules (replay / minimisation of a schedule): at decision i run candidate tape[i] if it is enabled, otherwise
+// (and for entries equal to SCHED_DEFAULT, and beyond the end of the tape) keep running the last candidate if it is still
+// enabled, else the enabled candidate with the smallest id. Candidates: thread id >= 0, actor i = -(i+1).
+const int SCHED_DEFAULT = -999;
+void set_guided_tape(const std::vector<int> &tape);   // applies to the next begin(); cleared by end()
+void set_record_schedule(bool on);                     // record the chosen candidate of every decision of the next run
+const std::vector<int> &recorded_schedule();
+
 // time
 int64_t now_us();
 void advance_us(int64_t d);        // clock jump (fault / workload op)
